@@ -340,3 +340,10 @@ func Changed(id int) bool {
 	s := snapshots[id-1]
 	return dumper.Sdump(s.obj) != s.dump
 }
+
+// SetField sets an exported or unexported field of the struct ptr points to (used by harness stand-ins
+// of decoders, which only run in the engine).
+func SetField(ptr any, name string, v any) {
+	f := settable(reflect.ValueOf(ptr).Elem().FieldByName(name))
+	f.Set(reflect.ValueOf(v))
+}
